@@ -212,17 +212,21 @@ pub fn run(a: &Args) {
                 let mut p = Packet::new_query(1);
                 p.set_flags(flags_from_mask(ma));
                 let has = p.has_flags(flags_from_mask(mb));
+                // the same question asked of the serialised header by the peek function, and of the packet parsed back
+                let bytes = p.build_bytes_vec().unwrap_or_default();
+                let peek = header_buffer::has_flags(&bytes, flags_from_mask(mb)).unwrap_or(!has);
+                let parsed_has = Packet::parse(&bytes).map(|x| x.has_flags(flags_from_mask(mb))).unwrap_or(!has);
                 let mut q = p.clone();
                 q.set_flags(flags_from_mask(mb));
                 let after_set = flag_mask_of(&q);
                 let mut r = p.clone();
                 r.remove_flags(flags_from_mask(mb));
                 let after_rm = flag_mask_of(&r);
-                (after_set, after_rm, has)
+                (after_set, after_rm, has, peek, parsed_has)
             });
             match res {
-                Ok((s, r, h)) => ops.push(json!([mb, s, r, h])),
-                Err(_) => ops.push(json!([mb, -2, -2, false])),
+                Ok((s, r, h, k, ph)) => ops.push(json!([mb, s, r, h, k, ph])),
+                Err(_) => ops.push(json!([mb, -2, -2, false, false, false])),
             }
             st.case(("f", ma, mb), true);
         }
